@@ -14,6 +14,11 @@ import Drpc.Wire.OldReader
 namespace Drpc.Compat
 open Drpc
 
+/-- set the Control field of a parse result -/
+def withControl (b : Bool) : PR → PR
+  | .ok rem fr => .ok rem { fr with control := b }
+  | r => r
+
 /-- the byte stream of a frame sequence: `AppendFrame` of each, concatenated (what `Writer` sends) -/
 def encode (fs : List Frame) : Bytes := fs.flatMap appendFrame
 
